@@ -9,6 +9,7 @@ Model: `ClvmModel/Interp/Machine.lean` (`runLoop`, `runProgram`).  Per-operator 
 -/
 import ClvmProofs.Lemmas.Interp.MachineBase
 import ClvmProofs.Lemmas.Interp.LiftChia
+import ClvmProofs.Lemmas.Interp.LiftCrypto
 
 namespace Clvm.Props.C02
 open Clvm Clvm.Interp
@@ -124,5 +125,38 @@ theorem core_op_budget (cfg : Cfg) (name : String) (f : OpFn) (h : coreOpByName 
 /-- … and is false for `op_unknown` under the old cost model (finding B) -/
 theorem unknown_op_budget_false : ¬ OpBudget (opUnknown [0x3f, 0xff, 0xff, 0xff, 0xc0]) :=
   opUnknown_budget_witness
+
+
+/-! ### The dialect the crate ships: `ChiaDialect` with *all* operators
+
+`cryptoExtra` is the table of the cryptographic operators and `op_sha256_tree` (Interp/CryptoOps.lean);
+their budget shape is proved in Lemmas/Interp/CryptoShapes*.lean, so the theorems above hold without
+any hypothesis on operators. -/
+
+/-- upward closed: every flag set, both cost models, all operators -/
+theorem chia_upward_closed (cfg : Cfg) (F : Nat) {fuel : Nat} {c0 : Ctr} {p e : Val}
+    {M M' : Nat} {r : Nat × Val × Ctr}
+    (h : runProgram cfg (chiaDialect cfg cryptoExtra F) fuel c0 p e M = some (.ok r))
+    (hM : effBudget M ≤ effBudget M') :
+    runProgram cfg (chiaDialect cfg cryptoExtra F) fuel c0 p e M' = some (.ok r) :=
+  crypto_run_upward cfg F h hM
+
+/-- under any other budget the run gives the same result or `CostExceeded`, never another error -/
+theorem chia_same_or_cost_exceeded (cfg : Cfg) (F : Nat) {fuel : Nat} {c0 : Ctr} {p e : Val}
+    {M : Nat} {r : Nat × Val × Ctr}
+    (h : runProgram cfg (chiaDialect cfg cryptoExtra F) fuel c0 p e M = some (.ok r)) (M' : Nat) :
+    runProgram cfg (chiaDialect cfg cryptoExtra F) fuel c0 p e M' = some (.ok r) ∨
+    runProgram cfg (chiaDialect cfg cryptoExtra F) fuel c0 p e M' = some (.error .CostExceeded) :=
+  crypto_run_dichotomy cfg F h M'
+
+/-- tight (pre-hard-fork cost model, unknown operators rejected): success exactly when the cost fits -/
+theorem chia_tight_partial (cfg : Cfg) (F : Nat)
+    (hS : hasFlag F Gen.FLAG_NO_UNKNOWN_OPS = true) (hN : hasFlag F Gen.FLAG_NEW_COST_MODEL = false)
+    {fuel : Nat} {c0 : Ctr} {p e : Val} {M C : Nat} {v : Val} {c : Ctr}
+    (h : runProgram cfg (chiaDialect cfg cryptoExtra F) fuel c0 p e M = some (.ok (C, v, c))) (M' : Nat) :
+    (C ≤ effBudget M' → runProgram cfg (chiaDialect cfg cryptoExtra F) fuel c0 p e M' = some (.ok (C, v, c))) ∧
+    (effBudget M' < C →
+      runProgram cfg (chiaDialect cfg cryptoExtra F) fuel c0 p e M' = some (.error .CostExceeded)) :=
+  crypto_run_tight_partial cfg F hS hN h M'
 
 end Clvm.Props.C02
